@@ -425,6 +425,9 @@ class Check:
                               "why": ("a task is out of the deductive engine's reach on this tree: %s" % self.out_of_reach[0]["what"]) if self.out_of_reach
                               else ("runs on every check (bounded, never counted as proved)" if always else "thorough tier"),
                               "failures": fails, "error": r.get("detail") if "failures" not in r and not r.get("hang") else None})
+        if "failures" in r:
+            # the oracle ran to completion; failures it reported become VIOLATIONs (or KNOWN-FINDINGs) in finish()
+            self.standin_ran = True
         if "failures" in r and not fails:
             self.standin_passed = True
 
@@ -497,13 +500,14 @@ class Check:
             code = 1
         dead_covers = [c for c in self.covers if c[1] == "unsat"]
         if code == 0:
-            if self.errors or canary_bad or dead_covers or n_obl < self.min_obligations:
+            if self.errors or canary_bad or dead_covers or (n_obl < self.min_obligations and not self.out_of_reach):
                 code = 3
             elif undecided:
                 code = 2
             elif self.out_of_reach:
                 # functions out of the engine's reach on this tree: decided by the bounded stand-in if one ran
-                code = 0 if getattr(self, "standin_passed", False) else 2
+                # (reaching this point means every failure a stand-in reported is a listed known finding)
+                code = 0 if getattr(self, "standin_ran", False) else 2
                 if code == 0:
                     print("NOTE: %d task(s) out of the deductive engine's reach on this tree; property decided by the bounded stand-in only (not a proof)" % len(self.out_of_reach))
         wall = time.time() - self.t0
